@@ -5,8 +5,10 @@
   visit_Call: callee is a Lambda whose parameter count equals the number of POSITIONAL arguments
   (keywords are not looked at) → arguments visited in the current scope, bound in a new frame, body
   visited, result returned.  Lambda callee with another count, and any other call → generic_visit.
-  The substitution is NOT capture avoiding (known finding F22): an argument mentioning a name that
-  a lambda inside the body binds is captured.
+  The substitution avoids capture in one direction (fix: "names bound inside an inlined body that an
+  argument mentions are renamed"): a lambda parameter / comprehension target that is also mentioned
+  by an argument being substituted gets a new name `x_i` first.  The other direction (a binder at the
+  call site named like a name that is free in an inserted helper body) is still an open finding.
 -/
 import Fadl.Syntax
 namespace Fadl
@@ -47,6 +49,68 @@ def bindFrame : List String → List Expr → Frame
   | _, _ => []
 
 mutual
+/-- every `Name` node of an expression (`ast.walk`): free and bound occurrences, callee names, comprehension
+    targets; not lambda parameters (those are `arg` nodes) -/
+def allNames : Expr → List String
+  | .name x => [x]
+  | .const _ => []
+  | .attr v _ => allNames v
+  | .call f args _ kwv => allNames f ++ allNamesL args ++ allNamesL kwv
+  | .lam _ b => allNames b
+  | .sub v s => allNames v ++ allNames s
+  | .tuple es => allNamesL es
+  | .list es => allNamesL es
+  | .dict ks vs => allNamesL ks ++ allNamesL vs
+  | .op _ args => allNamesL args
+  | .comp _ e t i ifs _ => allNames e ++ allNames t ++ allNames i ++ allNamesL ifs
+def allNamesL : List Expr → List String
+  | [] => []
+  | e :: es => allNames e ++ allNamesL es
+end
+
+/-- `_names_in_arguments`: every name mentioned by a replacement on the stack (also hidden ones) -/
+def activeNames (st : List Frame) : List String :=
+  st.flatMap (fun f => f.flatMap (fun p => match p.2 with
+    | some e => allNames e
+    | Option.none => []))
+
+/-- the first of `x_1, x_2, …` that is not taken -/
+def freshLocal (x : String) (taken : List String) : String :=
+  ((List.range (taken.length + 1)).map (fun i => x ++ "_" ++ toString (i + 1))).find? (fun c => !taken.contains c) |>.getD x
+
+/-- the loop of `_visit_hiding`: new names and the frame (a renamed local maps to its new name) -/
+def hideLoop (used : List String) : List String → List String → List String × Frame
+  | [], _ => ([], [])
+  | n :: ns, taken =>
+    if used.contains n then
+      let n' := freshLocal n taken
+      let (rest, fr) := hideLoop used ns (n' :: taken)
+      (n' :: rest, (n, some (.name n')) :: fr)
+    else
+      let (rest, fr) := hideLoop used ns taken
+      (n :: rest, (n, Option.none) :: fr)
+
+/-- `_visit_hiding(names, nodes)` up to the visit: `bodyNames` are the names mentioned by the nodes -/
+def hideRename (st : List Frame) (names bodyNames : List String) : List String × Frame :=
+  let used := activeNames st
+  hideLoop used names (used ++ names ++ bodyNames)
+
+mutual
+/-- a comprehension target with its names replaced (same order as `targetNames`) -/
+def renameTarget (m : List (String × String)) : Expr → Expr
+  | .name x => .name ((m.lookup x).getD x)
+  | .tuple es => .tuple (renameTargetL m es)
+  | .list es => .list (renameTargetL m es)
+  | .op k es => .op k (renameTargetL m es)
+  | .attr v a => .attr (renameTarget m v) a
+  | .sub v s => .sub (renameTarget m v) (renameTarget m s)
+  | e => e
+def renameTargetL (m : List (String × String)) : List Expr → List Expr
+  | [] => []
+  | e :: es => renameTarget m e :: renameTargetL m es
+end
+
+mutual
 def resolveCalled (st : List Frame) : Expr → Expr
   | .name x => match stackGet x st with
     | some (some e) => e
@@ -57,18 +121,23 @@ def resolveCalled (st : List Frame) : Expr → Expr
     if ps.length = args.length then
       resolveCalled (bindFrame ps (resolveCalledL st args) :: st) body
     else
-      -- cannot be inlined: generic_visit (the lambda's own parameters hide outer arguments)
-      .call (.lam ps (resolveCalled (hideFrame ps :: st) body)) (resolveCalledL st args) kwn (resolveCalledL st kwv)
+      -- cannot be inlined: generic_visit (visit_Lambda for the callee: its parameters hide outer arguments)
+      let (ps', fr) := hideRename st ps (allNames body)
+      .call (.lam ps' (resolveCalled (fr :: st) body)) (resolveCalledL st args) kwn (resolveCalledL st kwv)
   | .call f args kwn kwv => .call (resolveCalled st f) (resolveCalledL st args) kwn (resolveCalledL st kwv)
-  | .lam ps b => .lam ps (resolveCalled (hideFrame ps :: st) b)
+  | .lam ps b =>
+    let (ps', fr) := hideRename st ps (allNames b)
+    .lam ps' (resolveCalled (fr :: st) b)
   | .sub v s => .sub (resolveCalled st v) (resolveCalled st s)
   | .tuple es => .tuple (resolveCalledL st es)
   | .list es => .list (resolveCalledL st es)
   | .dict ks vs => .dict (resolveCalledL st ks) (resolveCalledL st vs)
   | .op k args => .op k (resolveCalledL st args)
   | .comp kind e t i ifs a =>
-    let inner := hideFrame (targetNames t) :: st
-    .comp kind (resolveCalled inner e) t (resolveCalled st i) (resolveCalledL inner ifs) a
+    let names := targetNames t
+    let (names', fr) := hideRename st names (allNames e ++ allNamesL ifs)
+    let inner := fr :: st
+    .comp kind (resolveCalled inner e) (renameTarget (names.zip names') t) (resolveCalled st i) (resolveCalledL inner ifs) a
 def resolveCalledL (st : List Frame) : List Expr → List Expr
   | [] => []
   | e :: es => resolveCalled st e :: resolveCalledL st es
